@@ -8,6 +8,7 @@ import (
 	"crypto/rsa"
 	"crypto/sha256"
 	"fmt"
+	spec "github.com/named-data/ndnd/std/ndn/spec_2022"
 	"math/rand"
 	"sort"
 	"sync"
@@ -321,6 +322,7 @@ func c12One(c *h.Ctx, id string, cs *pkt.Case, r *rand.Rand) {
 			c.Violation("C12:independent-verify-fails:"+cs.Kind+":"+cs.Signer, id, "signature value does not verify over the spec-defined signed portion (harness crypto)", desc)
 		}
 	}
+	viaPacket := false // decode through spec.ReadPacket (what faces and engines call) instead of ReadData/ReadInterest
 	decodeAccepts := func(mut []byte, segmented bool) (accepted bool, covEq bool, perr *h.PanicInfo) {
 		var sig ndn.Signature
 		var cov enc.Wire
@@ -337,7 +339,21 @@ func c12One(c *h.Ctx, id string, cs *pkt.Case, r *rand.Rand) {
 			} else {
 				rd = enc.NewBufferReader(mut)
 			}
-			sig, cov, derr = pkt.DecodeSig(cs.Kind, rd)
+			if viaPacket {
+				p, ctx, err := spec.ReadPacket(rd)
+				switch {
+				case err != nil:
+					derr = err
+				case cs.Kind == "data" && p.Data != nil:
+					sig, cov = p.Data.Signature(), ctx.Data_context.SigCovered()
+				case cs.Kind == "interest" && p.Interest != nil:
+					sig, cov = p.Interest.Signature(), ctx.Interest_context.SigCovered()
+				default:
+					derr = fmt.Errorf("decoded as another packet type")
+				}
+			} else {
+				sig, cov, derr = pkt.DecodeSig(cs.Kind, rd)
+			}
 			if derr != nil {
 				return
 			}
@@ -396,7 +412,9 @@ func c12One(c *h.Ctx, id string, cs *pkt.Case, r *rand.Rand) {
 	for _, bp := range positions {
 		mut := append([]byte{}, b...)
 		mut[bp/8] ^= 1 << uint(bp%8)
+		viaPacket = flips%2 == 1
 		acc, _, pi := decodeAccepts(mut, flips%7 == 6)
+		viaPacket = false
 		flips++
 		if pi != nil {
 			// a crash on hostile bytes is C04's subject; here it still is "not rejected cleanly"
